@@ -106,6 +106,94 @@ def run(chk, repo):
     o4_early(chk, repo)
     swallow(chk, repo)
     r243(chk, repo)
+    stop_flag(chk, repo)
+    release_is_sent(chk, repo)
+
+
+def release_is_sent(chk, repo):
+    """R24.6: the release of O1 (terminals asked back to SAFE-OPERATIONAL
+    in the finally of run) is Terminal.set_state: it has to put the
+    request on the wire whenever it is called.  A shortcut that trusts a
+    remembered state skips the release exactly when the task was cancelled
+    between sending OPERATIONAL and recording it."""
+    chk.doc("R24.6", "set_state always writes the AL control register")
+    sym = "ebpfcat.ethercat.Terminal.set_state"
+    f = repo.func(sym)
+    chk.analysed(sym)
+    cfg = CFG(f, raises="await")
+    wr = [n for n in cfg.nodes if n.expr is not None and (find(
+        "self.ec.roundtrip(ECCmd.FPWR, self.position, 288, $*a)", n.expr)
+        or find("self.write(288, $*a)", n.expr))]
+    need(wr, f"{sym}: the write of the AL control register (0x120) was not "
+             f"found")
+    # every normal exit passes a write (exceptional edges excluded)
+    ok = cfg.must_pass(cfg.entry, lambda n: n in wr, targets=[cfg.exit])
+    path = None
+    if not ok:
+        w = cfg.witness_path(cfg.entry, lambda n: n in wr,
+                             targets=[cfg.exit])
+        path = cfg.describe_path(w) if w else None
+    chk.ob("R24.6", sym, "every call writes the requested state to the "
+           "terminal", ok, f, "a path returns without the write: the "
+           "terminal keeps driving its outputs after the sync group has "
+           "ended" if not ok else "FPWR of register 0x120 on every path",
+           path)
+    override_rule(chk, repo, "R24.6", "ebpfcat.ethercat.Terminal",
+                  ["set_state"], "the release of the outputs is not sent")
+
+
+def stop_flag(chk, repo):
+    """R24.5: a process-based sync group is stopped by clearing `running`
+    (the only channel into the subprocess).  The cycle loop of
+    SyncGroupBase.run therefore has to come back to its `while
+    self.running` test in bounded time: no loop inside it - in run() or in
+    a coroutine it awaits - may go round on its own without testing the
+    flag."""
+    chk.doc("R24.5", "the cycle loop keeps testing the stop flag")
+    sym = EC + "SyncGroupBase.run"
+    f = repo.func(sym)
+    sg = repo.cls(EC + "SyncGroupBase")
+    outer = [w for w in walk_no_nested(f) if isinstance(w, ast.While)
+             and find("self.running", w.test)]
+    need(len(outer) == 1, f"{sym}: the `while self.running` loop was not "
+                          f"found")
+    todo = [(f, outer[0].body)]
+    seen = {id(f)}
+    bad = []
+    n = 0
+    while todo:
+        g, stmts = todo.pop()
+        for st in stmts:
+            for x in ast.walk(st):
+                if isinstance(x, (ast.While,)) and not find(
+                        "self.running", x.test):
+                    spins = isinstance(x.test, ast.Constant) and x.test.value
+                    # leaves only by return/break/raise: does a handler of
+                    # a timeout go round without leaving?
+                    retry = any(isinstance(h, ast.ExceptHandler)
+                                and "TimeoutError" in unparse(
+                                    h.type or ast.Constant(""))
+                                for h in ast.walk(x))
+                    if spins and retry and not find("self.running", x):
+                        bad.append((x, repo.qualname_of(g)))
+                    n += 1
+                if isinstance(x, ast.Await) and isinstance(
+                        x.value, ast.Call) and isinstance(
+                            x.value.func, ast.Attribute) and isinstance(
+                                x.value.func.value, ast.Name) and \
+                        x.value.func.value.id == "self":
+                    owner, h = repo.lookup(sg, x.value.func.attr)
+                    if isinstance(h, FUNC) and id(h) not in seen:
+                        seen.add(id(h))
+                        todo.append((h, h.body))
+    chk.ob("R24.5", sym, "no loop inside the cycle loop retries a timeout "
+           "without looking at `running`", not bad,
+           bad[0][0] if bad else outer[0],
+           (f"the loop in {bad[0][1]} re-sends and waits again for ever "
+            f"when the frames stop coming back; `running` is never tested "
+            f"there, so a ProcessSyncGroup whose parent task was cancelled "
+            f"is not stopped") if bad else
+           f"{len(seen)} coroutine(s) looked at")
 
 
 # ------------------------------------------------------------------- O1
